@@ -5,7 +5,10 @@ import (
 	"math/rand"
 )
 
-var lenVals = []uint32{0, 1, 2, 0xffffffff, 0xfffffffe, 0x80000000, 255, 256, 65535, 65536, 1 << 20}
+// lenVals: small, boundary and sign values, plus values whose product with
+// 3, 4, 8 or 16 wraps around 32 bits (size computations).
+var lenVals = []uint32{0, 1, 2, 0xffffffff, 0xfffffffe, 0x80000000, 255, 256, 65535, 65536, 1 << 20,
+	0x55555556, 0x40000000, 0x20000001, 0x10000001, 21, 62, 63}
 
 // MutateBinary returns a structure-aware mutation of b: length/count field
 // edits at 4-byte aligned and unaligned offsets, truncations, bit flips, byte
